@@ -401,23 +401,9 @@ theorem deadline_le_expiry (cfg : Cfg) (rnow : Time) (r : Req) (h : rnow ≤ r.t
   | infinite => simp [ht] at he
   | absent => simp only [ht, Option.some.injEq] at he; simp only [Tmo.secs, ms]; unfold Time at *; omega
 
-/-- the property's lapse-freedom, as far as it is proved.
-
-    Full statement (DESIGN §5 `renew_before_expiry`): while the publisher accepts renewals and the summed
-    latency of a renewal round is `< tolerance`, every renewal request for a SID reaches the publisher no
-    later than the expiry the publisher holds for it, for every granted timeout `> tolerance`, every number
-    of services, unboundedly many rounds.
-
-    Proved (`_partial`): for every round that starts from a sleep (`wake_margin` ∘ `renew_round_start` ∘
-    `renew_round_step`, the latter an induction step valid for rounds of any length) every renewal request is
-    sent strictly before `round start + tolerance ≤` the deadline the profile holds for that SID.
-    `deadline_le_expiry` links the profile's deadline to the publisher's expiry (`renew_round_step` gives
-    `rnow ≤ r.t` for every request of a calm round).
-    Missing: (a) the composition into one statement over the whole trace with the publisher's table (the
-    model does not carry it; the run-time judge `lapse:*` recomputes it and checks every calm timeline);
-    (b) rounds that start without sleeping (granted timeout `≤ tolerance + previous round's duration`),
-    where the argument needs the publisher's expiry, not the profile's deadline. -/
-theorem renew_before_expiry_partial (st : St) (u : Time) (f : Nat) (st0 : St)
+/-- composition of `wake_margin` and `renew_round_start` for the generated configuration (the whole-trace
+    statement including rounds that start without sleeping is `lapse_trace` / `renew_before_expiry` below) -/
+theorem renew_round_from_sleep (st : St) (u : Time) (f : Nat) (st0 : St)
     (hst : st = runHead genCfg f st0) (ht : st.task = .sleeping u)
     (hc : calmNext st.subs.length st.script st.dflt (ms genCfg.tol))
     (haw : (roundStep genCfg u st.subs { st with now := u }).2 = true) :
